@@ -168,12 +168,69 @@ def rename_locals(src: str) -> str:
     return ast.unparse(tree)
 
 
+class _FlipIfElse(ast.NodeTransformer):
+    """if c: A else: B  ->  if not c: B else: A   (plain if/else only, elif chains are left alone)"""
+
+    def visit_If(self, node):  # noqa: N802
+        self.generic_visit(node)
+        if node.orelse and not (len(node.orelse) == 1 and isinstance(node.orelse[0], ast.If)):
+            test = node.test
+            new_test = test.operand if isinstance(test, ast.UnaryOp) and isinstance(test.op, ast.Not) else ast.UnaryOp(op=ast.Not(), operand=test)
+            return ast.copy_location(ast.If(test=new_test, body=node.orelse, orelse=node.body), node)
+        return node
+
+
+class _ReturnTemp(ast.NodeTransformer):
+    """return E  ->  _ret = E; return _ret   (E not a plain name / constant)"""
+
+    def visit_FunctionDef(self, node):  # noqa: N802
+        self.generic_visit(node)
+        node.body = self._rewrite(node.body)
+        return node
+
+    def _rewrite(self, body):
+        out = []
+        for st in body:
+            if not isinstance(st, (ast.FunctionDef, ast.ClassDef, ast.AsyncFunctionDef)):
+                for fld in ("body", "orelse", "finalbody"):
+                    if isinstance(getattr(st, fld, None), list):
+                        setattr(st, fld, self._rewrite(getattr(st, fld)))
+                for h in getattr(st, "handlers", []) or []:
+                    h.body = self._rewrite(h.body)
+            if isinstance(st, ast.Return) and st.value is not None and not isinstance(st.value, (ast.Name, ast.Constant)):
+                out.append(ast.copy_location(ast.Assign(targets=[ast.Name(id="_ret", ctx=ast.Store())], value=st.value), st))
+                out.append(ast.copy_location(ast.Return(value=ast.Name(id="_ret", ctx=ast.Load())), st))
+            else:
+                out.append(st)
+        return out
+
+
+class _SwapEq(ast.NodeTransformer):
+    """a == b -> b == a ; a != b -> b != a"""
+
+    def visit_Compare(self, node):  # noqa: N802
+        self.generic_visit(node)
+        if len(node.ops) == 1 and isinstance(node.ops[0], (ast.Eq, ast.NotEq)):
+            return ast.copy_location(ast.Compare(left=node.comparators[0], ops=node.ops, comparators=[node.left]), node)
+        return node
+
+
+def _transform(src: str, transformer) -> str:
+    t = transformer().visit(ast.parse(src))
+    ast.fix_missing_locations(t)
+    return ast.unparse(t)
+
+
 def neutral_variants(sources: dict[str, str]) -> dict[str, dict[str, str]]:
     """Whole-repository behaviour-preserving rewrites: ast round trip (layout, comments, line
-    numbers change) and alpha-renaming of every local variable."""
+    numbers change), alpha-renaming of every local variable, every if/else flipped under the negated
+    condition, every `return E` through a temporary, both sides of every ==/!= swapped."""
     return {
         "roundtrip": {k: ast.unparse(ast.parse(v)) for k, v in sources.items()},
         "rename": {k: rename_locals(v) for k, v in sources.items()},
+        "flip-if-else": {k: _transform(v, _FlipIfElse) for k, v in sources.items()},
+        "return-through-temporary": {k: _transform(v, _ReturnTemp) for k, v in sources.items()},
+        "swap-equality-operands": {k: _transform(v, _SwapEq) for k, v in sources.items()},
     }
 
 
